@@ -136,5 +136,45 @@ def _encodes_empty(t, x):
     return False
 
 
+def strip_empty_optional_records(T, v):
+    """v with every OPTIONAL component removed whose type is a record without mandatory members and whose
+    value has an empty encoding - 'absent' and 'present but empty' are identified (finding F03)."""
+    k = T['k']
+    if k in ir.RECORD_KINDS:
+        out = {}
+        for c in T['comps']:
+            if c['name'] not in v:
+                continue
+            x = strip_empty_optional_records(c['t'], v[c['name']])
+            if c['p'] == 'opt' and c['t']['k'] in ir.RECORD_KINDS and \
+                    all(cc['p'] != 'req' for cc in c['t']['comps']) and _encodes_empty(c['t'], x):
+                continue
+            out[c['name']] = x
+        return out
+    if k in ir.OF_KINDS:
+        return [strip_empty_optional_records(T['of'], x) for x in v]
+    if k == 'CHOICE':
+        name, inner = v
+        for a in T['alts']:
+            if a['name'] == name:
+                return (name, strip_empty_optional_records(a['t'], inner))
+    return v
+
+
+def map_values(T, v, fn):
+    """Rebuild v with fn(T_node, v_node) applied to every scalar node."""
+    k = T['k']
+    if k in ir.RECORD_KINDS:
+        return {c['name']: map_values(c['t'], v[c['name']], fn) for c in T['comps'] if c['name'] in v}
+    if k in ir.OF_KINDS:
+        return [map_values(T['of'], x, fn) for x in v]
+    if k == 'CHOICE':
+        name, inner = v
+        for a in T['alts']:
+            if a['name'] == name:
+                return (name, map_values(a['t'], inner, fn))
+    return fn(T, v)
+
+
 def case_of(failure):
     return ir.from_jsonable(failure['case'])
